@@ -199,3 +199,13 @@ Lemma fdiv_nan_l y : fdiv fnan y = fnan. Proof. destruct y as [s|s| |s m e H]; r
 Lemma fdiv_nan_r x : fdiv x fnan = fnan. Proof. destruct x as [s|s| |s m e H]; reflexivity. Qed.
 Lemma fsqrt_nan : fsqrt fnan = fnan. Proof. reflexivity. Qed.
 Lemma fabs_nan : fabs fnan = fnan. Proof. reflexivity. Qed.
+
+(* relative closeness for values computed along different evaluation orders:
+   identical (canonical NaN, same infinity, same zero sign), or both finite and
+   |x - y| <= 2^-40 max(|x|, |y|).  (Lib.B64.close also accepts inf ~ finite.) *)
+Definition close2 (x y : b64) : bool :=
+  same_bits x y
+  || (is_finite x && is_finite y
+      && fle (fabs (fsub x y))
+             (fmul (of_bits 4427038433705197568)
+                   (if fle (fabs x) (fabs y) then fabs y else fabs x))).
